@@ -189,6 +189,12 @@ def getitem(eng, base, idx):
     if isinstance(idx, PList) and idx.items is None:
         tmp = SArr(idx.cols[0], idx.n, idx.kinds[0])
         return getitem(eng, base, tmp)
+    if isinstance(idx, NArr) and idx.kind == "int":
+        used(eng, "fancy-index-gather-is-fresh")
+        return NArr(idx.shape, [Sym(z3.Select(base.arr, norm_index(eng, x, base.n, "gather index")), base.kind) for x in idx.items], base.kind, base.dtype)
+    if isinstance(idx, PList) and idx.items is not None:
+        used(eng, "fancy-index-gather-is-fresh")
+        return NArr((len(idx.items),), [Sym(z3.Select(base.arr, norm_index(eng, x, base.n, "gather index")), base.kind) for x in idx.items], base.kind, base.dtype)
     if isinstance(idx, slice):
         return slice_view(eng, base, idx)
     iz = norm_index(eng, idx, base.n, "array index")
